@@ -146,17 +146,27 @@ def all_ids():
 
 
 def cmd_table():
+    """writes seeded/TABLE.md: which quick checks catch which seeded change"""
     rows = []
     for sid in all_ids():
         d = os.path.join(SEEDED, sid)
-        meta = json.load(open(os.path.join(d, "meta.json")))
-        det = json.load(open(os.path.join(d, "detect.json"))) if os.path.exists(os.path.join(d, "detect.json")) else {}
-        cells = []
-        for k, r in sorted(det.get("runs", {}).items()):
-            cells.append(f"{k}={'caught' if r['exit'] == 1 and r['violations'] else 'missed' if r['exit'] == 0 else 'error'}")
-        rows.append(f"| {sid} | {meta['breaks']} | {meta.get('title', '')[:70]} | {' '.join(cells)} |")
-    print("| id | breaks | change | checks |\n|---|---|---|---|")
-    print("\n".join(rows))
+        m = json.load(open(os.path.join(d, "meta.json")))
+        det = json.load(open(os.path.join(d, "detect.json"))) if os.path.exists(os.path.join(d, "detect.json")) else {"runs": {}}
+        caught, missed = [], []
+        for k, r in sorted(det["runs"].items()):
+            p, tier = k.split(":")
+            if tier == "quick":
+                (caught if (r["exit"] == 1 and r["violations"]) else missed).append(p)
+        rows.append((sid, m["breaks"], m.get("title", "").replace("|", "/")[:95], caught, missed))
+    n = len(rows)
+    own = sum(1 for r in rows if r[1] in r[3])
+    some = sum(1 for r in rows if r[3])
+    out = [f"# Seeded changes: {n} confirmed; {own} caught by the check of the property they break, {some} by some check", "",
+           "| id | breaks | change (agent's title) | caught by (quick tier) | not caught by |", "|---|---|---|---|---|"]
+    for sid, p, title, c, mi in rows:
+        out.append(f"| {sid} | {p} | {title} | {', '.join(c) or '—'} | {', '.join(mi)} |")
+    open(os.path.join(SEEDED, "TABLE.md"), "w").write("\n".join(out) + "\n")
+    print(out[0])
 
 
 def main():
